@@ -194,7 +194,17 @@ func forceOpts(r *Rng, cfg p1Cfg, pool []gval, n int) []POpt {
 	var out []POpt
 	for len(out) < n {
 		k := Pick(r, cfg.Keys)
-		out = append(out, POpt{T: "field", Key: k, Val: Pick(r, valuesFor(keyPool[k], pool))})
+		vs := valuesFor(keyPool[k], pool)
+		if cfg.JSONSafe {
+			var safe []int
+			for _, v := range vs {
+				if _, err := json.Marshal(pool[v].V); err == nil {
+					safe = append(safe, v)
+				}
+			}
+			vs = safe
+		}
+		out = append(out, POpt{T: "field", Key: k, Val: Pick(r, vs)})
 	}
 	return out
 }
